@@ -38,6 +38,7 @@ func isRecoverResult(v ssa.Value) bool {
 
 func c11(r *core.Run) {
 	p := r.P
+	defer c11Extra(r)
 	r.Explanation = "Decides, on every control-flow path (incl. the recover arm) of the transaction finaliser in lib/store/sqlx, that exactly one of Commit/Rollback runs, Commit only when no panic was recovered and the body's error is nil, and a recovered panic is rolled back and reported; that the finaliser is deferred before the body runs and only after a successful begin; strict/partial and row/rows agreement of the query method families; the ErrNotFound and strict column-count guards of the row mapper."
 	r.NotDecided = "row mapping over all destination shapes and result sets; driver faults; behaviour of database/sql."
 
